@@ -260,6 +260,7 @@ class SystemOfShapes:
 
         P_sym = sympy.zeros(*P.shape)   # each entry in the propagator matrix is assigned its own symbol
         P_expr = {}     # the expression corresponding to each propagator symbol
+        P_name = {}     # the name of the propagator symbol of each (row, column)
         update_expr = {}    # keys are str(variable symbol), values are str(expressions) that evaluate to the new value of the corresponding key
         for row in range(P_sym.shape[0]):
             # assemble update expression for symbol ``self.x_[row]``
@@ -273,6 +274,10 @@ class SystemOfShapes:
             for col in range(P_sym.shape[1]):
                 if not _is_zero(P[row, col]):
                     sym_str = "__P__{}__{}".format(str(self.x_[row]), str(self.x_[col]))
+                    while sym_str in P_expr:
+                        # two different (row, column) pairs can print alike (e.g. a second-order variable named "d": "d", "d__d" and "d__d", "d")
+                        sym_str += "_"
+                    P_name[(row, col)] = sym_str
                     P_sym[row, col] = sympy.parsing.sympy_parser.parse_expr(sym_str, global_dict=Shape._sympy_globals)
                     P_expr[sym_str] = P[row, col]
                     if row != col and not _is_zero(self.b_[col]):
@@ -288,7 +293,7 @@ class SystemOfShapes:
                     update_expr_terms.append(Config().output_timestep_symbol + " * (" + str(self.b_[row]) + ")")
                 else:
                     particular_solution = -self.b_[row] / self.A_[row, row]
-                    sym_str = "__P__{}__{}".format(str(self.x_[row]), str(self.x_[row]))
+                    sym_str = P_name.get((row, row), "__P__{}__{}".format(str(self.x_[row]), str(self.x_[row])))
                     update_expr_terms.append("-" + sym_str + " * " + str(self.x_[row]))    # remove the term (add its inverse) that would have corresponded to a homogeneous solution and that was added in the ``for col...`` loop above
                     update_expr_terms.append(sym_str + " * (" + str(self.x_[row]) + " - (" + str(particular_solution) + "))" + " + (" + str(particular_solution) + ")")
 
